@@ -284,6 +284,8 @@ impl Workload {
 
     pub(crate) fn insert(&mut self, job: Job) {
         let also_completes = job.work.also_completes();
+        #[cfg(fontc_verif)]
+        fontdrasil::verif::event("added", &job.id, Some(&also_completes));
 
         // We need pending entries for also-completes items so dependencies on them work
         for id in also_completes.iter() {
@@ -384,7 +386,9 @@ impl Workload {
             "Updating {be_id:?} deps from {:?} to {deps:?}",
             be_job.read_access
         );
-        be_job.read_access = deps
+        be_job.read_access = deps;
+        #[cfg(fontc_verif)]
+        fontdrasil::verif::event("deps-set", &be_id, None);
     }
 
     fn handle_success(
@@ -428,6 +432,8 @@ impl Workload {
                 .get_mut(&BeWorkIdentifier::Glyf.into())
                 .expect("Glyf has to be pending");
             glyf_loca_job.read_access = glyf_loca_deps.build().into();
+            #[cfg(fontc_verif)]
+            fontdrasil::verif::event("deps-set", &AnyWorkId::Be(BeWorkIdentifier::Glyf), None);
 
             // Resolve the Access::Unknown for gvar, same race as glyf/loca; see issue #1436
             let mut gvar_deps = AccessBuilder::<AnyWorkId>::new()
@@ -442,6 +448,8 @@ impl Workload {
                 .get_mut(&BeWorkIdentifier::Gvar.into())
                 .expect("Gvar has to be pending");
             gvar_job.read_access = gvar_deps.build().into();
+            #[cfg(fontc_verif)]
+            fontdrasil::verif::event("deps-set", &AnyWorkId::Be(BeWorkIdentifier::Gvar), None);
         }
 
         if let AnyWorkId::Fe(FeWorkIdentifier::KerningLocations) = success {
@@ -464,6 +472,12 @@ impl Workload {
                 .variant(FeWorkIdentifier::KernInstance(NormalizedLocation::default()))
                 .build()
                 .into();
+            #[cfg(fontc_verif)]
+            fontdrasil::verif::event(
+                "deps-set",
+                &AnyWorkId::Be(BeWorkIdentifier::GatherIrKerning),
+                None,
+            );
         }
 
         if let AnyWorkId::Be(BeWorkIdentifier::GatherIrKerning) = success {
@@ -484,6 +498,12 @@ impl Workload {
                 .variant(FeWorkIdentifier::StaticMetadata)
                 .build()
                 .into();
+            #[cfg(fontc_verif)]
+            fontdrasil::verif::event(
+                "deps-set",
+                &AnyWorkId::Be(BeWorkIdentifier::GatherBeKerning),
+                None,
+            );
         }
 
         if let AnyWorkId::Fe(FeWorkIdentifier::Glyph(glyph_name)) = success {
